@@ -1,6 +1,7 @@
 import NrDaemon.Driver.Core
 import NrDaemon.Driver.Containers
 import NrDaemon.Driver.Metrics
+import NrDaemon.Driver.Limits
 /-!
   Op-line driver (core Lean only; built as a `lean_exe`).
 
@@ -20,6 +21,7 @@ def dispatch (st : DState) (line : String) (impl : Option String) : DState × St
   | some "tr" => let (c, o) := heapStep false st.cont t impl; ({ st with cont := c }, o)
   | some "slow" => let (c, o) := slowStep st.cont t impl; ({ st with cont := c }, o)
   | some "mt" => let (c, o) := mtStep st.mt t impl; ({ st with mt := c }, o)
+  | some "lim" => (st, limStep t impl)
   | some "reset" => ({}, { model := "ok" })
   | _ => (st, { model := "bad-op" })
 
